@@ -10,7 +10,7 @@ OPS = ("::insert", "::get", "::get_mut", "::remove", "::clear", "::len")
 
 def run(ctx):
     fx = ctx.facts("default")
-    fixtures.run(ctx, ['variant', 'probe', 'sibling', 'parallel', 'clear', 'padmask'])
+    fixtures.run(ctx, ['variant', 'probe', 'sibling', 'parallel', 'clear', 'padmask', 'markcount'])
     sents, _ = sentinel.run(ctx, fx, FILE, "hash_map::zipora_hash_map::HashEntry::hash")
     sentinel.completeness(ctx, fx, FILE, "hash_map::zipora_hash_map::HashEntry::hash", sents)
     sentinel.probe_past_tombstones(ctx, fx, FILE, "hash_map::zipora_hash_map::HashEntry::hash", sents)
@@ -20,6 +20,12 @@ def run(ctx):
     # GoldHashMap keeps the cached hash of entries[i] in hash_cache[i]
     parallel.run(ctx, fx, "src/hash_map/gold_hash_map.rs", "hash_map::gold_hash_map::GoldHashMap", "entries", "hash_cache")
     ctx.floor("R-PARALLEL.functions", 2)
+    # the companion vector is built slot by slot; a slot counted as deleted carries the deleted marker
+    parallel.companion_built_per_entry(ctx, fx, "src/hash_map/gold_hash_map.rs", "hash_map::gold_hash_map::GoldHashMap", "hash_cache")
+    ctx.floor("R-PARALLEL.build.loops", 1)
+    parallel.deleted_count_marks(ctx, fx, "src/hash_map/gold_hash_map.rs", "hash_map::gold_hash_map::GoldHashMap", "freelist_size",
+                                 ".hash_map::gold_hash_map::Entry::link", "L")
+    ctx.floor("R-MARKCOUNT.increments", 1)
     parallel.clear_all(ctx, fx, ["src/hash_map/gold_hash_map.rs", "src/hash_map/zipora_hash_map.rs", "src/hash_map/gold_hash_idx.rs",
                                  "src/containers/specialized/small_map.rs"])
     ctx.floor("R-CLEAR.fields", 3)
@@ -50,7 +56,9 @@ def run(ctx):
                     "into the marker is reachable within the same loop iteration without first taking the 'marker == empty' edge. "
                     "R-SIBLING.index: the binary operator applied to `hash as usize` (BitAnd vs Rem) is the same in every "
                     "function of the file. R-PARALLEL: GoldHashMap.entries and .hash_cache are reshaped by the same kind of Vec "
-                    "operation in every function. R-VARIANT as in C05 over HashMapStorage.",
-        trusted_base=["rustc nightly MIR", "zfacts", "rules/sentinel.py", "rules/variant.py"],
+                    "operation in every function. R-PARALLEL.build: the loop that builds a new hash_cache pushes on every iteration. R-MARKCOUNT: "
+                    "wherever freelist_size is incremented, the deleted marker is stored into Entry::link before it or on every path after "
+                    "it (in the function or around each of its call sites). R-VARIANT as in C05 over HashMapStorage.",
+        trusted_base=["rustc nightly MIR", "zfacts", "rules/sentinel.py", "rules/variant.py", "rules/parallel.py"],
         rule_text="obligation = (hash sink) | (operation, storage variant)",
     )
